@@ -482,6 +482,40 @@ Fixpoint unify_n (fuel : nat) (types : list ty) {struct fuel} : ures :=
 (* Types with a dynamic type nested inside a collection/structure make go-cty take special
    paths (element unification inside conversions); those are not modelled. *)
 Definition nested_dyn (t : ty) : bool := has_dyn t && negb (is_dyn t).
+(* unify.go unifyTuplesAsList / unifyObjectsAsMaps hand back, for a tuple (object) operand, the
+   composition `out, err = tupleConv(in); ...; return listConv(in)`: the second conversion is
+   applied to the ORIGINAL value, not to the result of the first.  listConv is nil exactly when
+   the list (map) type the tuples (objects) unify to on their own already equals the final result
+   type.  Otherwise the conversion hcl applies to a selected tuple-/object-typed arm is one built
+   for a different source type (it fails with "element types must all match" on
+   `true ? [[{}],[{b=true}]] : [[]]`-shaped inputs, or succeeds with a value that is not of the
+   result type); that behaviour of the pinned dependency is not modelled.  When every element
+   (attribute) type of the tuple (object) already equals the element type of that intermediate
+   list (map) type, the first conversion does not change the elements and the composition is an
+   ordinary conversion of the original value: nothing special then.  [unify_conv_quirk] decides,
+   for the two operand types in order, whether the ill-typed composition is returned. *)
+Definition unify_conv_quirk (a b : ty) : bool :=
+  let fuel := S (ty_size a + ty_size b) in
+  let chk (s : ty) (parts : list ty) (mk : ty -> ty) (relist : ty -> list ty) : bool :=
+    match unify_n fuel parts with
+    | UOk et =>
+        negb (forallb (fun t => ty_eqb t et) parts) &&
+        (ty_eqb s (mk et) || conv_ok s (mk et)) &&
+        match unify_n fuel (relist (mk et)) with
+        | UOk r => negb (ty_eqb r (mk et))
+        | _ => false
+        end
+    | _ => false
+    end in
+  match a, b with
+  | TTuple xs, TList _ => chk a xs TList (fun lt => [lt; b])
+  | TList _, TTuple xs => chk b xs TList (fun lt => [a; lt])
+  | TObj fs, TMap _ => chk a (map snd fs) TMap (fun mt => [mt; b])
+  | TMap _, TObj fs => chk b (map snd fs) TMap (fun mt => [a; mt])
+  | _, _ => false
+  end.
+
 Definition unify (a b : ty) : ures :=
   if nested_dyn a || nested_dyn b then UUnsupported
+  else if unify_conv_quirk a b then UUnsupported
   else unify_n (S (S (ty_size a + ty_size b))) [a; b].
